@@ -57,6 +57,9 @@ let handle toks =
       else if List.mem name ["ss"; "ta"; "to"; "xv"; "xo"; "aS"; "xu"; "uf"; "es"; "et"; "ev"; "eo"; "eS"; "eu"; "eb"; "cb"; "cs"; "cS"; "cv"; "emb"; "cln"] then r = 0
       else false in
     let cur = ref "" in
+    (* XA:<i> = an allocation fails during op number i, whatever the allocator's sizing policy: just before op i every capacity
+       (and the limits derived from capacities) is dropped to zero and the next allocator call is bound to fail *)
+    let force_at = ref (-1) in
     let refv s = if String.length s > 0 && s.[0] = '$' then results.(int_of_string (String.sub s 1 (String.length s - 1))) else zs s in
     let run_op i (o : op) =
       match step fixed o !st with
@@ -72,7 +75,11 @@ let handle toks =
         let f = Array.of_list (String.split_on_char ':' tok) in
         let a k = f.(k) in
         cur := a 0;
-        if a 0 = "GUARD" then (guard := 1; Buffer.add_string out "ok ")
+        if i = !force_at && !guard <> 2 then
+          st := (if a 0 = "rs" then set_fa Z0 (set_fa_rep false !st)    (* reset only touches buffers that exist *)
+                 else set_fa Z0 (set_fa_rep false (set_caps caps0 (set_ds_limit Z0 (set_limit_level Z0 !st)))));
+        if a 0 = "XA" then (force_at := int_of_string (a 1); Buffer.add_string out "ok ")
+        else if a 0 = "GUARD" then (guard := 1; Buffer.add_string out "ok ")
         else if a 0 = "REC" then (Buffer.add_string out (if !guard = 2 then "tripped " else "clean "); guard := 0)
         else if !guard = 2 then Buffer.add_string out "_ "
         else
